@@ -62,7 +62,11 @@ pub fn rename_operation(
     };
 
     // Build the list of styles to use based on exclude, include, and only options
-    let styles = build_styles_list(exclude_styles, include_styles, only_styles);
+    // `build_styles_list` yields `None` only when every default style was excluded and none was
+    // included. `None` in `PlanOptions` means "scanner defaults", which would bring the excluded
+    // styles back, so an empty list (nothing enabled, nothing matches) is passed on instead.
+    let styles =
+        Some(build_styles_list(exclude_styles, include_styles, only_styles).unwrap_or_default());
 
     // Generate the plan
     let options = PlanOptions {
